@@ -625,4 +625,197 @@ theorem accepted_of_readWithDelta {a s : Snap} {d : Delta} {ws : List Warning} (
       rw [← h.1]
       exact accepted_of_buildFromRaw hwf hb
 
+/-! ### the delta reader's allocations are bounded by its input -/
+
+theorem minsert_measure_le {k : Int} {v : List Int} : ∀ (m : Items),
+    (minsert k v m).length ≤ m.length + 1 ∧ dataLen (minsert k v m) ≤ dataLen m + v.length := by
+  intro m
+  induction m with
+  | nil => simp [minsert, dataLen]
+  | cons q r ih =>
+    obtain ⟨k2, v2⟩ := q
+    simp only [minsert]
+    split
+    · simp [dataLen_cons]; omega
+    · split
+      · simp [dataLen_cons]; omega
+      · simp [dataLen_cons]; omega
+
+theorem sinsert_length_le (k : Int) : ∀ (l : List Int), (sinsert k l).length ≤ l.length + 1 := by
+  intro l
+  induction l with
+  | nil => simp [sinsert]
+  | cons a l ih =>
+    simp only [sinsert]
+    split
+    · simp
+    · split
+      · simp
+      · simp; omega
+
+theorem readData_size' : ∀ (n : Nat) (src : Src) (vs : List Int) (src' : Src) (w : List Warning),
+    readData n src = some (vs, src', w) → src'.size + n ≤ src.size ∧ vs.length = n := by
+  intro n
+  induction n with
+  | zero => intro src vs src' w h; simp [readData] at h; obtain ⟨e1, e2, _⟩ := h; subst e1 e2; simp
+  | succ n ih =>
+    intro src vs src' w h
+    simp only [readData] at h
+    cases h1 : src.readInt with
+    | none => simp [h1] at h
+    | some t =>
+      obtain ⟨v, s1, w1⟩ := t
+      simp only [h1] at h
+      cases h2 : readData n s1 with
+      | none => simp [h2] at h
+      | some t2 =>
+        obtain ⟨vs2, s2, w2⟩ := t2
+        simp [h2] at h
+        have := ih s1 vs2 s2 w2 h2
+        have := Src.readInt_size h1
+        obtain ⟨e1, e2, _⟩ := h
+        subst e1 e2
+        simp; omega
+
+theorem readKeys_size : ∀ (n : Nat) (src : Src) (acc : List Int) (ws : List Warning) (ks : List Int)
+    (src' : Src) (ws' : List Warning), readKeys n src acc ws = some (ks, src', ws') →
+    src'.size + n ≤ src.size ∧ ks.length ≤ acc.length + n := by
+  intro n
+  induction n with
+  | zero => intro src acc ws ks src' ws' h; simp [readKeys] at h; obtain ⟨e1, e2, _⟩ := h; subst e1 e2; simp
+  | succ n ih =>
+    intro src acc ws ks src' ws' h
+    simp only [readKeys] at h
+    cases h1 : src.readInt with
+    | none => simp [h1] at h
+    | some t =>
+      obtain ⟨v, s1, w1⟩ := t
+      simp only [h1] at h
+      have := ih s1 _ _ ks src' ws' h
+      have := Src.readInt_size h1
+      have := sinsert_length_le v acc
+      omega
+
+/-- the update loop never holds more than it has consumed: two header integers per entry plus the
+data words -/
+theorem readUpdates_alloc (objSize : Nat → Option Nat) (deleted : List Int) :
+    ∀ (fuel : Nat) (src : Src) (upd : Items) (bl num : Nat) (ws : List Warning) (upd' : Items) (num' : Nat)
+      (ws' : List Warning),
+      readUpdates objSize deleted fuel src upd bl num ws = .ok (upd', num', ws') →
+      2 * upd'.length + dataLen upd' ≤ 2 * upd.length + dataLen upd + src.size := by
+  intro fuel
+  induction fuel with
+  | zero =>
+    intro src upd bl num ws upd' num' ws' h
+    simp only [readUpdates] at h
+    split at h
+    · simp at h; rw [← h.1]; omega
+    · cases h
+  | succ f ih =>
+    intro src upd bl num ws upd' num' ws' h
+    rw [readUpdates] at h
+    split at h
+    · simp at h; rw [← h.1]; omega
+    · cases h1 : src.readInt with
+      | none => simp [h1] at h
+      | some t1 =>
+        obtain ⟨t, s1, w1⟩ := t1
+        simp only [h1] at h
+        have hs1 := Src.readInt_size h1
+        cases h2 : s1.readInt with
+        | none => simp [h2] at h
+        | some t2 =>
+          obtain ⟨id, s2, w2⟩ := t2
+          simp only [h2] at h
+          have hs2 := Src.readInt_size h2
+          split at h
+          · cases h
+          · split at h
+            · cases h
+            · cases ho : objSize t.toNat with
+              | some sz =>
+                simp only [ho] at h
+                split at h
+                · cases h
+                · split at h
+                  · cases h
+                  · cases h4 : readData sz s2 with
+                    | none => simp [h4] at h
+                    | some t4 =>
+                      obtain ⟨data, s4, w4⟩ := t4
+                      simp only [h4] at h
+                      obtain ⟨hs4, hdl⟩ := readData_size' _ _ _ _ _ h4
+                      have := ih s4 _ _ _ _ upd' num' ws' h
+                      have := minsert_measure_le (k := keyOf t.toNat id.toNat) (v := data) upd
+                      omega
+              | none =>
+                simp only [ho] at h
+                cases h3 : s2.readInt with
+                | none => simp [h3] at h
+                | some t3 =>
+                  obtain ⟨sz, s3, w3⟩ := t3
+                  simp only [h3] at h
+                  have hs3 := Src.readInt_size h3
+                  by_cases hneg : sz < 0
+                  · simp only [hneg, if_true] at h; cases h
+                  · simp only [hneg, if_false] at h
+                    split at h
+                    · cases h
+                    · split at h
+                      · cases h
+                      · cases h4 : readData sz.toNat s3 with
+                        | none => simp [h4] at h
+                        | some t4 =>
+                          obtain ⟨data, s4, w4⟩ := t4
+                          simp only [h4] at h
+                          obtain ⟨hs4, hdl⟩ := readData_size' _ _ _ _ _ h4
+                          have := ih s4 _ _ _ _ upd' num' ws' h
+                          have := minsert_measure_le (k := keyOf t.toNat id.toNat) (v := data) upd
+                          omega
+
+/-- An accepted delta is never larger than its input: three header words, one word per deleted key,
+two words per updated item plus its data. -/
+theorem readDelta_alloc (objSize : Nat → Option Nat) {src : Src} {d : Delta} {ws : List Warning}
+    (h : readDelta objSize src = .ok (d, ws)) :
+    3 + d.deleted.length + 2 * d.updated.length + dataLen d.updated ≤ src.size := by
+  unfold readDelta at h
+  cases h1 : src.readInt with
+  | none => simp [h1] at h
+  | some t1 =>
+    obtain ⟨nd, s1, w1⟩ := t1
+    simp only [h1] at h
+    have a1 := Src.readInt_size h1
+    split at h
+    · cases h
+    · cases h2 : s1.readInt with
+      | none => simp [h2] at h
+      | some t2 =>
+        obtain ⟨nu, s2, w2⟩ := t2
+        simp only [h2] at h
+        have a2 := Src.readInt_size h2
+        split at h
+        · cases h
+        · cases h3 : s2.readInt with
+          | none => simp [h3] at h
+          | some t3 =>
+            obtain ⟨z, s3, w3⟩ := t3
+            simp only [h3] at h
+            have a3 := Src.readInt_size h3
+            cases h4 : readKeys nd.toNat s3 [] [] with
+            | none => simp [h4] at h
+            | some t4 =>
+              obtain ⟨deleted, s4, w4⟩ := t4
+              simp only [h4] at h
+              have a4 := readKeys_size _ _ _ _ _ _ _ h4
+              cases h5 : readUpdates objSize deleted s4.size s4 [] 0 0 [] with
+              | panic q => simp [h5] at h
+              | err e => simp [h5] at h
+              | ok r =>
+                obtain ⟨upd, num, w5⟩ := r
+                simp [h5] at h
+                have a5 := readUpdates_alloc objSize deleted _ _ _ _ _ _ upd num w5 h5
+                rw [← h.1]
+                simp only [List.length_nil, dataLen] at a5 a4 ⊢
+                simp at a5
+                omega
 end Tw.Snap
